@@ -29,12 +29,13 @@ ASSUMPTIONS = ["six 1.17 shim", "actor assumption (one event at a time per accou
 BUDGET = {"quick": (800, 150), "thorough": (20000, 2400)}
 FAULTS = ["srv_dup_delivery"]
 PROBES = ["notif_ack", "call_offer_receipt", "call_ack", "pong", "unpresentable_receipt", "media_module_off_message",
-          "encrypt_count_upload", "dup_answered_twice", "group_participant_ack"]
+          "encrypt_count_upload", "dup_answered_twice", "group_participant_ack", "participant_ack_for_id_without_dash"]
 SHRINK = ["events"]
 PA, PP = "4915120000001", "4915120000002"
 JA, JP = PA + "@s.whatsapp.net", PP + "@s.whatsapp.net"
 OTHER = "4915120000077@s.whatsapp.net"
 GJ = "4915120000077-1500000000@g.us"
+GJ_NEW = "120363025246125486@g.us"
 NOTIFS = ["picture_set", "picture_delete", "status", "contacts_add", "contacts_remove", "contacts_update", "contacts_sync",
           "gp2_create", "gp2_add", "gp2_remove", "gp2_subject", "encrypt_count", "encrypt_identity", "unknown_type",
           "unknown_type2"]
@@ -148,7 +149,10 @@ class W(convo.World):
             part = None
             if sub.startswith("gp2") or (e.get("part") and sub in ("unknown_type", "picture_set", "status")):
                 part = frm
-                base["from"] = GJ
+                # old-style group id (creator-timestamp), current-style group id (no dash), the status broadcast list
+                base["from"] = r.choice([GJ, GJ, GJ_NEW] if sub.startswith("gp2") else [GJ, GJ_NEW, "status@broadcast"])
+                if base["from"] != GJ:
+                    self.probe("participant_ack_for_id_without_dash")
                 base["participant"] = part
             if sub == "picture_set":
                 base["type"] = "picture"
